@@ -90,7 +90,9 @@
    parked caller is let through), Dev_SwallowFlushError (a failed time-out
    flush is logged, the loop carries on), Dev_ReportWithoutCancel (the report
    is made with a context detached from the caller's),
-   Dev_IgnoreBarrierFlushError (see above).
+   Dev_IgnoreBarrierFlushError (see above), Dev_SwallowEventFlushError /
+   Dev_SwallowWatermarkFlushError (the error of a flush made by an event's /
+   a watermark's closure is logged and the caller is told nil).
 
    Reference handler (harness/cmd/align): a keyed event writes the state
    entry seen(sr,idx) and registers a timer for its own key at W+1 where W is
@@ -112,7 +114,8 @@ CONSTANTS NS,        \* number of senders
           HonourCtx, \* the handler fails when the context of its call is cancelled
           FaultFrom, \* set of naturals: no fault before that many items were sent in total (chosen per
                      \* behaviour; {0} for exhaustive runs, a range to spread the faults of simulated behaviours)
-          Dev_CtxAwareWait, Dev_SwallowFlushError, Dev_ReportWithoutCancel, Dev_IgnoreBarrierFlushError
+          Dev_CtxAwareWait, Dev_SwallowFlushError, Dev_ReportWithoutCancel, Dev_IgnoreBarrierFlushError,
+          Dev_SwallowEventFlushError, Dev_SwallowWatermarkFlushError
 
 Senders == 1..NS
 None == -1
@@ -199,7 +202,7 @@ TmUnit(tm, s, i) == [t |-> "t", sr |-> tm.sr, idx |-> tm.idx, T |-> tm.T, csr |-
 \* response are applied, on failure the batch is gone and the error is
 \* returned (m.err)
 Process(m, W, cxl) ==
-  IF m.batch = <<>> \/ m.err THEN m ELSE
+  IF m.batch = <<>> THEN m ELSE
   LET us == {m.batch[i] : i \in 1..Len(m.batch)}
       evs == {u \in us : u.t = "e"}
       tms == {u \in us : u.t = "t"}
@@ -230,7 +233,7 @@ SortTimers(S) == IF S = {} THEN <<>>
 \* batch; a failed flush ends the iteration (the timers not reached stay)
 RECURSIVE FireAll(_, _, _, _, _, _)
 FireAll(m, due, W, s, i, cxl) ==
-  IF due = <<>> \/ m.err THEN m
+  IF due = <<>> \/ (m.err /\ ~Dev_SwallowWatermarkFlushError) THEN m
   ELSE LET tm == Head(due)
        IN FireAll(AddUnit([m EXCEPT !.timers = @ \ {tm}], TmUnit(tm, s, i), W, cxl), Tail(due), W, s, i, cxl)
 
@@ -328,8 +331,9 @@ LoopEvent ==
   /\ loop # 0 /\ lph = "run" /\ Cur(loop).k = "e"
   /\ LET s == loop
          m == AddUnit(M, EvUnit(s, Len(sent[s])), Comp(wm), cx[s])
-     IN /\ SetM(m) /\ RetOrFail(s, m.err) /\ doomed' = (doomed \/ m.err)
-        /\ Log([a |-> "LoopEvent", sr |-> s, calls |-> m.calls, allow |-> Allow, err |-> m.err])
+         err == m.err /\ ~Dev_SwallowEventFlushError
+     IN /\ SetM(m) /\ RetOrFail(s, err) /\ doomed' = (doomed \/ m.err)
+        /\ Log([a |-> "LoopEvent", sr |-> s, calls |-> m.calls, allow |-> Allow, err |-> err])
   /\ FaultKeep
   /\ UNCHANGED <<slen, sent, waitfor, nskip, ck, nclosed, inflight, nfired, wm, cut, acks>>
 
@@ -340,8 +344,9 @@ LoopWatermark ==
          W == Comp(wm2)
          due == SortTimers({tm \in timers : tm.T <= W})
          m == FireAll(M, due, W, s, Len(sent[s]), cx[s])
-     IN /\ wm' = wm2 /\ SetM(m) /\ RetOrFail(s, m.err) /\ doomed' = (doomed \/ m.err)
-        /\ Log([a |-> "LoopWatermark", sr |-> s, calls |-> m.calls, allow |-> Allow, w |-> W, err |-> m.err])
+         err == m.err /\ ~Dev_SwallowWatermarkFlushError
+     IN /\ wm' = wm2 /\ SetM(m) /\ RetOrFail(s, err) /\ doomed' = (doomed \/ m.err)
+        /\ Log([a |-> "LoopWatermark", sr |-> s, calls |-> m.calls, allow |-> Allow, w |-> W, err |-> err])
   /\ FaultKeep
   /\ UNCHANGED <<slen, sent, waitfor, nskip, ck, nclosed, inflight, nfired, cut, acks>>
 
